@@ -1450,6 +1450,19 @@ Section Positions.
   Lemma cites_are_construct_positions : forall b e cs e',
     exec_block b e = (Failed cs, e') -> forall p, In p cs -> In p (positions_block b).
   Proof. intros b e cs e' E p Hp. exact (proj1 (proj2 failures_cite_positions_mut) b e cs e' E p Hp). Qed.
+
+  Lemma rule_error_cites_construct_positions : forall contained body inj tr cs,
+    fst (exec_rule fo meta real_of contained body inj tr) = RRError cs ->
+    forall p, In p cs -> In p (positions_block body).
+  Proof.
+    intros contained body inj tr cs H p Hp. rewrite exec_rule_eq in H. cbv zeta in H.
+    destruct (exec_block body (mkEnv inj [] tr)) as [f e'] eqn:B.
+    destruct f; cbn [fst] in H; try discriminate.
+    - inversion H; subst. destruct Hp.
+    - inversion H; subst. destruct Hp.
+    - inversion H; subst. eapply cites_are_construct_positions; eauto.
+    - destruct contained; try discriminate. inversion H; subst. destruct Hp.
+  Qed.
 End Positions.
 
 (* ---- the converse half: the construct that fails cites its own position ---- *)
@@ -1594,3 +1607,410 @@ Proof.
   rewrite nth_error_app2 by (rewrite L; apply Nat.le_refl).
   rewrite L, Nat.sub_diag, run_rules_cons. reflexivity.
 Qed.
+
+(* ================= 21 (cont.). locals shadowed by injected names are invisible ================= *)
+Section Sim.
+  Variable fo : float_ops.
+  Variable meta : rule_meta.
+  Variable real_of : Z -> Z -> fl fo.
+  Notation value := (value fo).
+  Notation env := (env fo).
+  Notation flow := (flow fo).
+  Notation St := (Sem.S fo).
+
+  (* two environments that differ only in locals shadowed by injected names *)
+  Definition same_visible (e e' : env) : Prop :=
+    e_inj e = e_inj e' /\ e_trace e = e_trace e' /\
+    forall n, alookup n (e_inj e) = None -> alookup n (e_loc e) = alookup n (e_loc e').
+
+  Lemma same_visible_refl : forall e, same_visible e e.
+  Proof. intros; repeat split. Qed.
+
+  Lemma alookup_aset_none : forall V n a (x : V) m, alookup n (aset a x m) = None -> alookup n m = None.
+  Proof.
+    induction m as [|[k w] m IH]; cbn; intros H; [reflexivity|].
+    destruct (String.eqb k a) eqn:E; cbn in H.
+    - destruct (String.eqb k n); [discriminate | assumption].
+    - destruct (String.eqb k n); [discriminate | auto].
+  Qed.
+
+  Lemma resolve_sim : forall e e' n, same_visible e e' -> resolve fo e n = resolve fo e' n.
+  Proof.
+    intros e e' n [Hi [Ht Hl]]. unfold resolve. rewrite <- Hi.
+    destruct (path_of n) as [|a [|b [|c [|d l]]]]; try reflexivity;
+      destruct (alookup a (e_inj e)) eqn:A; try reflexivity; rewrite (Hl a A); reflexivity.
+  Qed.
+
+  Lemma get_value_sim : forall e e' n, same_visible e e' -> get_value fo e n = get_value fo e' n.
+  Proof. intros. unfold get_value. rewrite (resolve_sim e e' n H). reflexivity. Qed.
+
+  Lemma key_value_sim : forall e e' k, same_visible e e' -> key_value fo e k = key_value fo e' k.
+  Proof. intros. destruct k; cbn; auto using get_value_sim. Qed.
+
+  Lemma mapvar_get_sim : forall e e' m, same_visible e e' -> mapvar_get fo e m = mapvar_get fo e' m.
+  Proof.
+    intros e e' m H. unfold mapvar_get. rewrite (resolve_sim e e' _ H).
+    destruct (resolve fo e' (mv_name m)) as [r|c|]; cbn [wrap bind]; try reflexivity.
+    destruct r as [o| |]; try reflexivity. destruct o; try reflexivity.
+    - destruct (mv_key m) eqn:K; try reflexivity; rewrite (key_value_sim e e' _ H); reflexivity.
+    - destruct (mv_key m) eqn:K; try reflexivity. rewrite (get_value_sim e e' _ H). reflexivity.
+  Qed.
+
+  Definition res_env_sim (r r' : res env) : Prop :=
+    match r, r' with
+    | Ok a, Ok b => same_visible a b
+    | Err c, Err c' => c = c'
+    | Panic, Panic => True
+    | _, _ => False
+    end.
+
+  Lemma sv_inj : forall e e' i', same_visible e e' ->
+    (forall n, alookup n i' = None -> alookup n (e_inj e) = None) ->
+    same_visible (mkEnv i' (e_loc e) (e_trace e)) (mkEnv i' (e_loc e') (e_trace e')).
+  Proof.
+    intros e e' i' [Hi [Ht Hl]] Hf. unfold same_visible. cbn [e_inj e_loc e_trace]. repeat split; auto.
+  Qed.
+
+  Lemma set_value_sim : forall e e' n v, same_visible e e' ->
+    res_env_sim (set_value fo e n v) (set_value fo e' n v).
+  Proof.
+    intros e e' n v H. pose proof H as [Hi [Ht Hl]]. unfold set_value. rewrite <- Hi.
+    destruct (path_of n) as [|a [|b [|c [|d l]]]]; cbn [res_env_sim]; try reflexivity.
+    - destruct (alookup a (e_inj e)) as [o|] eqn:A.
+      + destruct o; cbn [res_env_sim]; try reflexivity; try (destruct byptr; reflexivity).
+        destruct (set_single fo t v) as [nv|c|]; cbn [bind res_env_sim]; try reflexivity.
+        apply (sv_inj e e' _ H). intros n0. apply alookup_aset_none.
+      + cbn [res_env_sim]. unfold same_visible. cbn [e_inj e_loc e_trace]. repeat split; auto.
+        intros n0 N. destruct (String.eqb_spec n0 a).
+        * subst. rewrite !alookup_aset_same. reflexivity.
+        * rewrite !alookup_aset_other by assumption. auto.
+    - destruct (alookup a (e_inj e)) as [o|] eqn:A; cbn [res_env_sim]; try reflexivity.
+      destruct (set_field fo o b v) as [o'|c|]; cbn [bind res_env_sim]; try reflexivity.
+      apply (sv_inj e e' _ H). intros n0. apply alookup_aset_none.
+    - destruct (alookup a (e_inj e)) as [o|] eqn:A; cbn [res_env_sim]; try reflexivity.
+      destruct (get_field fo o b) as [ob|c0|]; cbn [bind res_env_sim]; try reflexivity.
+      destruct ob as [ob|]; cbn [res_env_sim]; try reflexivity.
+      destruct ob; cbn [res_env_sim]; try reflexivity.
+      match goal with |- res_env_sim (bind ?x _) _ => destruct x as [ob'|c1|] end;
+        cbn [bind res_env_sim]; try reflexivity.
+      destruct ob', o; cbn [res_env_sim]; try reflexivity.
+      apply (sv_inj e e' _ H). intros n0. apply alookup_aset_none.
+  Qed.
+
+  Lemma res_env_sim_bind : forall A (x : res A) (f f' : A -> res env),
+    (forall a, res_env_sim (f a) (f' a)) -> res_env_sim (bind x f) (bind x f').
+  Proof. intros A x f f' H. destruct x; cbn [bind res_env_sim]; auto. Qed.
+
+  Lemma update_obj_sim : forall e e' n o, same_visible e e' ->
+    same_visible (update_obj fo e n o) (update_obj fo e' n o).
+  Proof.
+    intros e e' n o H. pose proof H as [Hi [Ht Hl]]. unfold update_obj. rewrite <- Hi.
+    destruct (path_of n) as [|a [|b [|c [|d l]]]]; try assumption.
+    - apply (sv_inj e e' _ H). intros n0. apply alookup_aset_none.
+    - destruct (alookup a (e_inj e)) as [[]|]; try assumption.
+      apply (sv_inj e e' _ H). intros n0. apply alookup_aset_none.
+    - destruct (alookup a (e_inj e)) as [[]|]; try assumption.
+      destruct (flookup fo b fields) as [[]|]; try assumption.
+      apply (sv_inj e e' _ H). intros n0. apply alookup_aset_none.
+  Qed.
+
+  Ltac rs := cbn [res_env_sim bind]; auto.
+
+  Lemma mapvar_set_sim : forall e e' m v, same_visible e e' ->
+    res_env_sim (mapvar_set fo e m v) (mapvar_set fo e' m v).
+  Proof.
+    intros e e' m v H. unfold mapvar_set. rewrite (resolve_sim e e' _ H).
+    apply res_env_sim_bind. intros r.
+    destruct r as [o| |]; rs. destruct o; rs.
+    - destruct (mv_key m) eqn:K.
+      + rewrite (key_value_sim e e' _ H). apply res_env_sim_bind. intros kv.
+        apply res_env_sim_bind. intros wk. apply res_env_sim_bind. intros wv.
+        destruct (assignable fo kt wk && assignable fo et wv); rs. apply update_obj_sim; assumption.
+      + destruct (sty_eqb kt TS); [|apply res_env_sim_bind; intros; rs].
+        apply res_env_sim_bind. intros wv.
+        destruct (assignable fo kt (VStr s) && assignable fo et wv); rs. apply update_obj_sim; assumption.
+      + rewrite (key_value_sim e e' _ H). apply res_env_sim_bind. intros kv.
+        apply res_env_sim_bind. intros wk. apply res_env_sim_bind. intros wv.
+        destruct (assignable fo kt wk && assignable fo et wv); rs. apply update_obj_sim; assumption.
+    - assert (ST : forall z, res_env_sim
+        (bind (wanted fo et v) (fun wv =>
+            if z <? 0 then Panic
+            else if (Z.of_nat (length elems) <=? z) then Panic
+            else if negb (assignable fo et wv) then Panic
+            else if (isarray && negb byptr)%bool then Panic
+            else Ok (update_obj fo e (mv_name m) (HSeq byptr isarray et (list_set (Z.to_nat z) wv elems)))))
+        (bind (wanted fo et v) (fun wv =>
+            if z <? 0 then Panic
+            else if (Z.of_nat (length elems) <=? z) then Panic
+            else if negb (assignable fo et wv) then Panic
+            else if (isarray && negb byptr)%bool then Panic
+            else Ok (update_obj fo e' (mv_name m) (HSeq byptr isarray et (list_set (Z.to_nat z) wv elems)))))).
+      { intros z. apply res_env_sim_bind. intros wv.
+        destruct (z <? 0); rs. destruct (Z.of_nat (length elems) <=? z); rs.
+        destruct (negb (assignable fo et wv)); rs. destruct (isarray && negb byptr)%bool; rs.
+        apply update_obj_sim; assumption. }
+      destruct (mv_key m) eqn:K; rs.
+      + generalize (ST z). destruct (z <? 0); [rs | intros X; exact X].
+      + rewrite (get_value_sim e e' _ H). apply res_env_sim_bind. intros kv.
+        destruct kv; [apply ST | ..]; apply res_env_sim_bind; intros; rs.
+  Qed.
+
+  Definition res_venv_sim (r r' : res (value * env)) : Prop :=
+    match r, r' with
+    | Ok (v, a), Ok (v', b) => v = v' /\ same_visible a b
+    | Err c, Err c' => c = c'
+    | Panic, Panic => True
+    | _, _ => False
+    end.
+
+  Lemma invoke_sim : forall e e' f vs, same_visible e e' ->
+    res_venv_sim (invoke fo e f vs) (invoke fo e' f vs).
+  Proof.
+    intros e e' f vs H. pose proof H as [Hi [Ht Hl]]. unfold invoke.
+    destruct (convert_args fo (f_params f) vs) as [args|c|]; cbn [bind res_venv_sim]; auto.
+    destruct (negb (Nat.eqb (length args) (length (f_params f)))); cbn [res_venv_sim]; auto.
+    destruct (negb (forallb _ _)); cbn [res_venv_sim]; auto.
+    assert (S' : same_visible (mkEnv (e_inj e) (e_loc e) (e_trace e ++ [(f_id f, args)]))
+                              (mkEnv (e_inj e') (e_loc e') (e_trace e' ++ [(f_id f, args)]))).
+    { unfold same_visible. cbn [e_inj e_loc e_trace]. rewrite Ht. repeat split; auto. }
+    destruct (f_beh f); cbn [res_venv_sim]; auto.
+  Qed.
+
+  Lemma res_venv_sim_refl_noenv : forall r : res (value * env),
+    match r with Ok _ => False | _ => True end -> res_venv_sim r r.
+  Proof. destruct r; cbn; intros; auto. contradiction. Qed.
+
+  Lemma exec_call_sim : forall e e' k n vs, same_visible e e' ->
+    res_venv_sim (exec_call fo e k n vs) (exec_call fo e' k n vs).
+  Proof.
+    intros e e' k n vs H. pose proof H as [Hi [Ht Hl]]. unfold exec_call. rewrite <- Hi.
+    destruct k; destruct (path_of n) as [|a [|b [|c [|d l]]]]; cbn [res_venv_sim]; auto.
+    - destruct (alookup a (e_inj e)) as [o|] eqn:A.
+      + destruct o; cbn [res_venv_sim]; auto. apply invoke_sim; assumption.
+      + rewrite <- (Hl a A). destruct (alookup a (e_loc e)); cbn [res_venv_sim]; auto.
+    - destruct (alookup a (e_inj e)) as [o|] eqn:A.
+      + destruct o; cbn [res_venv_sim]; auto.
+        destruct (find_method fo methods b); cbn [res_venv_sim]; auto. apply invoke_sim; assumption.
+      + rewrite <- (Hl a A). destruct (alookup a (e_loc e)); cbn [res_venv_sim]; auto.
+    - destruct (alookup a (e_inj e)) as [o|] eqn:A.
+      + destruct (get_field fo o b) as [ob|c0|]; cbn [bind res_venv_sim]; auto.
+        destruct ob as [[]|]; cbn [res_venv_sim]; auto.
+        destruct (find_method fo methods c); cbn [res_venv_sim]; auto. apply invoke_sim; assumption.
+      + rewrite <- (Hl a A). destruct (alookup a (e_loc e)); cbn [res_venv_sim]; auto.
+  Qed.
+
+  (* ---- the monad ---- *)
+  Definition sim_M {A} (m : M fo A) : Prop :=
+    forall e e', same_visible e e' -> fst (m e) = fst (m e') /\ same_visible (snd (m e)) (snd (m e')).
+
+  Lemma sim_ret : forall A (a : A), sim_M (ret fo a).
+  Proof. intros A a e e' H. split; auto. Qed.
+  Lemma sim_lift : forall A (r : res A), sim_M (lift fo r).
+  Proof. intros A a e e' H. split; auto. Qed.
+  Lemma sim_reads : forall A (f : env -> res A),
+    (forall e e', same_visible e e' -> f e = f e') -> sim_M (reads fo f).
+  Proof. intros A f Hf e e' H. unfold reads. cbn [fst snd]. split; auto. Qed.
+  Lemma sim_mbind : forall A B (m : M fo A) (f : A -> M fo B),
+    sim_M m -> (forall a, sim_M (f a)) -> sim_M (mbind fo m f).
+  Proof.
+    intros A B m f Hm Hf e e' H. unfold mbind. destruct (Hm e e' H) as [E1 E2].
+    destruct (m e) as [r1 e1], (m e') as [r1' e1']. cbn [fst snd] in *. subst r1'.
+    destruct r1; cbn [fst snd]; auto. apply Hf; assumption.
+  Qed.
+  Lemma sim_mrecover : forall A p (m : M fo A), sim_M m -> sim_M (mrecover fo p m).
+  Proof.
+    intros A p m Hm e e' H. unfold mrecover. destruct (Hm e e' H) as [E1 E2].
+    destruct (m e) as [r1 e1], (m e') as [r1' e1']. cbn [fst snd] in *. subst. auto.
+  Qed.
+  Lemma sim_mwrap : forall A p (m : M fo A), sim_M m -> sim_M (mwrap fo p m).
+  Proof.
+    intros A p m Hm e e' H. unfold mwrap. destruct (Hm e e' H) as [E1 E2].
+    destruct (m e) as [r1 e1], (m e') as [r1' e1']. cbn [fst snd] in *. subst. auto.
+  Qed.
+
+  Lemma sim_eval_mut :
+    (forall a, sim_M (eval_atom fo meta real_of a)) /\
+    (forall c, sim_M (eval_call fo meta real_of c)) /\
+    (forall a, sim_M (eval_args fo meta real_of a)) /\
+    (forall x, sim_M (eval_arg fo meta real_of x)) /\
+    (forall m, sim_M (eval_mexpr fo meta real_of m)) /\
+    (forall x, sim_M (eval_expr fo meta real_of x)).
+  Proof.
+    apply expr_mutind.
+    - intros n. apply sim_reads. intros; apply get_value_sim; assumption.
+    - intros c. apply sim_ret.
+    - intros c IH. exact IH.
+    - intros m. apply sim_reads. intros; apply mapvar_get_sim; assumption.
+    - intros k p name a IH. rewrite eval_call_eq. apply sim_mrecover. apply sim_mbind; [exact IH|].
+      intros vs e e' H. pose proof (exec_call_sim e e' k name vs H) as X.
+      destruct (exec_call fo e k name vs) as [[v1 a1]|c1|], (exec_call fo e' k name vs) as [[v2 a2]|c2|];
+        cbn [res_venv_sim] in X; try contradiction; cbn [wrap fst snd].
+      + destruct X; subst; auto.
+      + subst; auto.
+      + auto.
+    - apply sim_ret.
+    - intros x IHx rest IHr. rewrite eval_args_cons. apply sim_mbind; [exact IHx|]. intros v.
+      apply sim_mbind; [exact IHr|]. intros vs. apply sim_ret.
+    - intros c. apply sim_ret.
+    - intros n. apply sim_reads. intros; apply get_value_sim; assumption.
+    - intros c IH. exact IH.
+    - intros m. apply sim_reads. intros; apply mapvar_get_sim; assumption.
+    - intros e IH. exact IH.
+    - intros p a IH. exact IH.
+    - intros p o l IHl r IHr. rewrite eval_mexpr_bin. apply sim_mbind; [exact IHl|]. intros lv.
+      apply sim_mbind; [exact IHr|]. intros rv. apply sim_lift.
+    - intros p m IH. exact IH.
+    - intros p m IH. rewrite eval_expr_math. apply sim_mbind; [exact IH|]. intros; apply sim_lift.
+    - intros p o l IHl r IHr. rewrite eval_expr_cmp. apply sim_mbind; [exact IHl|]. intros lv.
+      apply sim_mbind; [exact IHr|]. intros rv. apply sim_lift.
+    - intros p o l IHl r IHr. rewrite eval_expr_logic. apply sim_mbind; [exact IHl|]. intros lv.
+      apply sim_mbind; [exact IHr|]. intros rv. apply sim_lift.
+    - intros p neg a IH. rewrite eval_expr_atom. apply sim_mbind; [exact IH|]. intros; apply sim_lift.
+    - intros p neg x IH. rewrite eval_expr_paren. apply sim_mbind; [exact IH|]. intros; apply sim_lift.
+  Qed.
+
+  Definition sim_call := proj1 (proj2 sim_eval_mut).
+  Definition sim_mexpr := proj1 (proj2 (proj2 (proj2 (proj2 sim_eval_mut)))).
+  Definition sim_expr := proj2 (proj2 (proj2 (proj2 (proj2 sim_eval_mut)))).
+
+  Lemma sim_assign : forall a, sim_M (exec_assign fo meta real_of a).
+  Proof.
+    intros [p t op r]. unfold exec_assign. cbn [as_pos as_target as_op as_rhs]. cbv zeta.
+    apply sim_mrecover. apply sim_mbind.
+    { destruct r; cbn [eval_rhs]; [apply sim_mexpr | apply sim_expr]. }
+    intros mv.
+    assert (ST : forall v, sim_M (fun e : env =>
+              match t with
+              | TVar n => match wrap p (set_value fo e n v) with
+                          | Ok e' => (Ok tt, e') | Err c => (Err c, e) | Panic => (Panic, e) end
+              | TMap m => match wrap p (mapvar_set fo e m v) with
+                          | Ok e' => (Ok tt, e') | Err c => (Err c, e) | Panic => (Panic, e) end
+              end)).
+    { intros v e e' H. destruct t as [n|m].
+      - pose proof (set_value_sim e e' n v H) as X.
+        destruct (set_value fo e n v), (set_value fo e' n v); cbn [res_env_sim] in X; try contradiction;
+          cbn [wrap fst snd]; subst; auto.
+      - pose proof (mapvar_set_sim e e' m v H) as X.
+        destruct (mapvar_set fo e m v), (mapvar_set fo e' m v); cbn [res_env_sim] in X; try contradiction;
+          cbn [wrap fst snd]; subst; auto. }
+    destruct (aop_of op) as [o|]; [|apply ST].
+    apply sim_mbind.
+    { apply sim_mwrap. destruct t; apply sim_reads; intros;
+        [apply get_value_sim | apply mapvar_get_sim]; assumption. }
+    intros sv. apply sim_mbind; [apply sim_lift | apply ST].
+  Qed.
+
+  (* ---- statements ---- *)
+  Definition sim_S (s : St) : Prop :=
+    forall e e', same_visible e e' -> fst (s e) = fst (s e') /\ same_visible (snd (s e)) (snd (s e')).
+
+  Lemma sim_of_unit : forall m, sim_M m -> sim_S (of_unit fo m).
+  Proof.
+    intros m Hm e e' H. unfold of_unit. destruct (Hm e e' H) as [E1 E2].
+    destruct (m e) as [r1 e1], (m e') as [r1' e1']. cbn [fst snd] in *. subst.
+    destruct r1'; auto.
+  Qed.
+
+  Lemma sim_on_cond : forall c k, (forall b, sim_S (k b)) -> sim_S (on_cond fo meta real_of c k).
+  Proof.
+    intros c k Hk e e' H. rewrite !on_cond_eq. destruct (sim_expr c e e' H) as [E1 E2].
+    destruct (eval_expr fo meta real_of c e) as [r1 e1], (eval_expr fo meta real_of c e') as [r1' e1'].
+    cbn [fst snd] in *. subst. destruct r1'; auto.
+    destruct (as_bool fo a); auto. apply Hk; assumption.
+  Qed.
+
+  Lemma sim_for_loop : forall c step body n, sim_S body -> sim_S (for_loop fo meta real_of c step body n).
+  Proof.
+    intros c step body n Hb. induction n as [|n IH].
+    - intros e e' H. rewrite !for_loop_zero. auto.
+    - intros e e' H. rewrite !for_loop_succ. revert e e' H. apply sim_on_cond.
+      intros [|] e e' H; [|auto].
+      destruct (Hb e e' H) as [E1 E2].
+      destruct (body e) as [g e1], (body e') as [g' e1']. cbn [fst snd] in *. subst g'.
+      destruct g; auto.
+      all: destruct (sim_assign step e1 e1' E2) as [F1 F2];
+           destruct (exec_assign fo meta real_of step e1) as [r2 e2],
+                    (exec_assign fo meta real_of step e1') as [r2' e2']; cbn [fst snd] in *; subst r2';
+           destruct r2; auto.
+  Qed.
+
+  Lemma sim_range_loop : forall key body ks, sim_S body -> sim_S (range_loop fo key body ks).
+  Proof.
+    intros key body ks Hb. induction ks as [|k ks IH]; intros e e' H.
+    - rewrite !range_loop_nil. auto.
+    - rewrite !range_loop_cons. pose proof (set_value_sim e e' key k H) as X.
+      destruct (set_value fo e key k) as [a|c|], (set_value fo e' key k) as [a'|c'|];
+        cbn [res_env_sim] in X; try contradiction; subst; auto.
+      destruct (Hb a a' X) as [E1 E2].
+      destruct (body a) as [g e1], (body a') as [g' e1']. cbn [fst snd] in *. subst g'.
+      destruct g; auto.
+  Qed.
+
+  Lemma sim_conc : forall cs failed acc, sim_S (conc_run fo meta real_of cs failed acc).
+  Proof.
+    induction cs as [|c cs IH]; intros failed acc e e' H.
+    - cbn. auto.
+    - cbn [conc_run].
+      assert (C : sim_M (conc_child fo meta real_of c)).
+      { destruct c; cbn [conc_child]; [apply sim_assign|].
+        apply sim_mbind; [apply sim_call | intros; apply sim_ret]. }
+      destruct (C e e' H) as [E1 E2].
+      destruct (conc_child fo meta real_of c e) as [r1 e1], (conc_child fo meta real_of c e') as [r1' e1'].
+      cbn [fst snd] in *. subst r1'. destruct r1; apply IH; assumption.
+  Qed.
+
+  Lemma sim_stmt_mut :
+    (forall s, sim_S (exec_stmt fo meta real_of s)) /\
+    (forall b, sim_S (exec_block fo meta real_of b)) /\
+    (forall ss, sim_S (exec_stmts fo meta real_of ss)) /\
+    (forall l, forall otherwise, sim_S otherwise -> sim_S (exec_elifs fo meta real_of l otherwise)).
+  Proof.
+    apply stmt_mutind.
+    - intros a. rewrite exec_stmt_assign. apply sim_of_unit, sim_assign.
+    - intros c. rewrite exec_stmt_call. apply sim_of_unit.
+      apply sim_mbind; [apply sim_call | intros; apply sim_ret].
+    - intros c th IHth elifs IHel el IHo. rewrite exec_stmt_if. apply sim_on_cond.
+      intros [|]; [exact IHth|]. apply IHel. destruct el; [exact IHo|]. intros e e' H; auto.
+    - intros p init c step body IH e e' H. rewrite !exec_stmt_for.
+      generalize max_execute_num. intros n.
+      destruct (sim_assign init e e' H) as [E1 E2].
+      destruct (exec_assign fo meta real_of init e) as [r1 e1],
+               (exec_assign fo meta real_of init e') as [r1' e1']. cbn [fst snd] in *. subst r1'.
+      destruct r1; auto. apply sim_for_loop; assumption.
+    - intros p key coll body IH e e' H. rewrite !exec_stmt_forrange.
+      rewrite (resolve_sim e e' coll H).
+      destruct (wrap p (resolve fo e' coll)); auto.
+      destruct (range_keys fo a); auto. apply sim_range_loop; assumption.
+    - intros e e' H. auto.
+    - intros e e' H. auto.
+    - intros cs. rewrite exec_stmt_conc. apply sim_conc.
+    - intros ss IH r e e' H. rewrite !exec_block_eq. destruct (IH e e' H) as [E1 E2].
+      destruct (exec_stmts fo meta real_of ss e) as [g e1],
+               (exec_stmts fo meta real_of ss e') as [g' e1']. cbn [fst snd] in *. subst g'.
+      destruct g; auto. destruct r as [[x|]|]; auto.
+      destruct (sim_expr x e1 e1' E2) as [F1 F2].
+      destruct (eval_expr fo meta real_of x e1) as [r2 e2],
+               (eval_expr fo meta real_of x e1') as [r2' e2']. cbn [fst snd] in *. subst r2'.
+      destruct r2; auto.
+    - intros e e' H. auto.
+    - intros s IHs rest IHr e e' H. rewrite !exec_stmts_cons. destruct (IHs e e' H) as [E1 E2].
+      destruct (exec_stmt fo meta real_of s e) as [g e1],
+               (exec_stmt fo meta real_of s e') as [g' e1']. cbn [fst snd] in *. subst g'.
+      destruct g; auto.
+    - intros otherwise Ho. rewrite exec_elifs_nil. exact Ho.
+    - intros c b IHb rest IHr otherwise Ho. rewrite exec_elifs_cons. apply sim_on_cond.
+      intros [|]; [exact IHb | apply IHr; exact Ho].
+  Qed.
+
+  (* locals bound only to names that are injected too are invisible *)
+  Lemma result_independent_of_foreign_locals : forall b inj loc tr,
+    (forall n, alookup n inj = None -> alookup n loc = None) ->
+    fst (exec_block fo meta real_of b (mkEnv inj loc tr)) =
+    fst (exec_block fo meta real_of b (mkEnv inj [] tr)) /\
+    same_visible (snd (exec_block fo meta real_of b (mkEnv inj loc tr)))
+                 (snd (exec_block fo meta real_of b (mkEnv inj [] tr))).
+  Proof.
+    intros b inj loc tr H. apply (proj1 (proj2 sim_stmt_mut) b).
+    unfold same_visible. cbn [e_inj e_loc e_trace]. repeat split. assumption.
+  Qed.
+End Sim.
